@@ -13,10 +13,14 @@ func FilterTG(p *prog.Program, log []Rec) []Rec {
 		case "init", "started", "req", "ans", "again", "error", "cease", "fin", "wait", "timeout", "blocked",
 			"observed", "deliver", "delivered", "cancel", "infra", "other", "cand", "ansc", "crash", "determination":
 			out = append(out, r)
-		case "visit", "listening":
-			// arrival at / arming of intermediate catch events only (boundary
-			// listeners are armed by the host activity, not by a token)
+		case "visit":
+			// arrival at intermediate catch events only (boundary listeners
+			// are armed by the host activity, not by a token)
 			if n := p.Node(r.Node); n != nil && n.Kind == "catch" {
+				out = append(out, r)
+			}
+		case "listening":
+			if n := p.Node(r.Node); n != nil && (n.Kind == "catch" || n.Kind == "boundary") {
 				out = append(out, r)
 			}
 		case "completion":
